@@ -36,6 +36,7 @@ class Program:
         self.impls = self.d["impls"]
         self.implements = {m["trait"]: set(m["implementors"]) for m in self.d["implements"]}
         self.trait_by_name = {m["name"]: m["trait"] for m in self.d["implements"]}
+        self.pretty = {f["path"]: f["pretty"] for f in self.d["fns"]}
         self.key_to_path = {}
         for f in self.d["fns"]:
             if f["kind"] == "Closure":
